@@ -2,7 +2,7 @@
 IMPL: array::conv1d/conv2d (view::convnd), index::shape_pool2d/slice_pool2d, view::pool2d, array::max_pool2d/avg_pool2d,
 softmax/softmin, batch/layer/instance/group norm, linear, bilinear, pairwise_distance, cosine_similarity.
 ORACLE: lib/nn_ref_c17.py (nested loops from the PyTorch documentation formulas; no PyTorch in this sandbox)."""
-import itertools, math, os, sys, zlib
+import itertools, math, os, struct, sys, zlib
 import numpy as np
 from runner import Case
 from shapes import prod, fmt, all_idx
@@ -12,14 +12,16 @@ import nn_ref_c17 as ref
 
 ID = 'C17'
 LEVEL = 'proof'
-RULE = ('witnesses of the 2 known findings; conv1d: full grid batch 1..2, C 1..4 x every divisor as groups x O in {g,2g}, '
+RULE = ('witnesses of the 3 known findings; conv1d: full grid batch 1..2, C 1..4 x every divisor as groups x O in {g,2g}, '
         'L 1..5 (quick) / 1..7, K 1..3, stride 1..3, padding 0..2, dilation 1..2, positive output size, bias on/off, defaults passed as None '
         'or as the explicit value, float32 and int element types, plus seeded cases beyond the grid (batch<=3, C<=6, L<=12, K<=5, s<=4, p<=3, d<=3); '
         'conv2d: seeded sample (700 quick / 15000 thorough) of the same ranges, batch 1..2, with None / int / pair argument forms; pooling: every (H,W) 1..5 '
         '(quick, interior thinned 1:3) / 1..7, kernel 1..3, stride 1..3 per axis, ceil on/off, 0..2 leading axes: shape_pool2d, slice_pool2d, window '
-        'provenance fold through view::pool2d, max_pool2d, avg_pool2d (data -9..9, so all-negative windows occur); softmax/softmin over every axis (negative too) of rank 1..4; '
-        'batch/layer/instance/group norm on rank 2..4 (every trailing normalized_shape, every divisor as num_groups); linear, bilinear, '
-        'pairwise_distance (default and ord/eps/keepdims forms, broadcast, equal operands), cosine_similarity (every axis, zero vectors) on rank 1..3. '
+        'provenance fold through view::pool2d, max_pool2d, avg_pool2d (data -9..9, so all-negative windows occur; MODEL = fold over the window, exact for max, float32 for avg); '
+        'softmax/softmin over every axis (negative too) of rank 1..4; '
+        'batch/layer/instance/group norm on rank 2..4 (every trailing normalized_shape, every divisor as num_groups); linear, bilinear (rank 1..3, and rank 4 with a middle '
+        'leading extent of 1 and of 2..3), pairwise_distance (default and ord/eps/keepdims forms, broadcast, equal operands), cosine_similarity (every axis, zero vectors) on rank 1..3: '
+        'all of these are evaluated by the Lean MODEL too (the polymorphic compositions of NN/Compose.lean at Float32, at Int for integer linear / bilinear / max pooling) and compared with IMPL and with the oracle. '
         'integer-valued data compared exactly, float results within 4 ulp(float32) x terms x magnitude. non-trivial = parameters not all default')
 EXHAUSTIVE = {'quick': True, 'thorough': True}
 ANCHORS = {'NmVerif.NN.convnd (convWeight, convInput, convCore, convBias, convStride)':
@@ -28,21 +30,34 @@ ANCHORS = {'NmVerif.NN.convnd (convWeight, convInput, convCore, convBias, convSt
            'NmVerif.NN.slidingWindowV / expandV / padV / reshapeV / binop / sumAxes / sliceStepV':
                'index::shape_sliding_window + sliding_window, view/expand.hpp shape_expand + expand, index::shape_pad + pad, reshape, broadcast, reduce, slice as used by convnd',
            'NmVerif.NN.shapePool2d / slicePool2d / poolWindow / poolFold':
-               'index::shape_pool2d, index::slice_pool2d, view::pool2d_t::operator() (apply_slice + flatten + reducer)'}
-ASSUMPTIONS = ['the tree under test carries the fix commits of fixes/C17-conv-batch, C17-conv2d-dilation-pair, C17-pool-ceil-window, C17-max-pool-initial (the model mirrors the repaired code; the group interleaving of conv_reshape_weight is mirrored as it is)',
+               'index::shape_pool2d, index::slice_pool2d, view::pool2d_t::operator() (apply_slice + flatten + reducer)',
+           'NmVerif.NN.maxPool2d / avgPool2d (slicedArr, Reduce.reduceElem maximum, Reduce.mean)':
+               'view::max_reducer_t (reduce_maximum(sliced, None, None, None, False)), view::avg_reducer_t (mean(sliced, None, None, False): reduce_add / index::product(shape(sliced))) (view/pooling.hpp, view/mean.hpp)',
+           'NmVerif.NN.softmax / softmin (red, bin, un over Reduce.reduce and ufunc2)':
+               'view::softmax (reduce_maximum keepdims, subtract, exp, reduce_add keepdims, divide), view::softmin (negative) (view/softmax.hpp, view/softmin.hpp)',
+           'NmVerif.NN.linear (tensordotVal over Linalg.tensordotAxes, bin add)': 'view::linear = tensordot(input, weight, ((-1),(-1))) + bias (view/linear.hpp, view/tensordot.hpp)',
+           'NmVerif.NN.bilinear (bilinearInputReshape, matmulVal over Linalg.matmulV2, bilinearResultTranspose)':
+               'view::bilinear with index::bilinear_input_reshape, index::bilinear_result_transpose, matmulv2, multiply, sum, transpose (view/bilinear.hpp)',
+           'NmVerif.NN.pairwiseDistance / cosineSimilarity (vectorNormO, broadcast2)':
+               'view::pairwise_distance, view::cosine_similarity, view::vector_norm, view::broadcast_arrays (view/pairwise_distance.hpp, cosine_similarity.hpp, vector_norm.hpp)',
+           'NmVerif.NN.batchNorm / layerNorm / instanceNorm / groupNorm (normCore over Reduce.mean, Reduce.var; chanParam = atleastNd + moveLast; groupNormReshape / groupNormAxis / groupNormArgsReshape)':
+               'view::batch_norm, layer_norm (index::layer_norm_axis), instance_norm, group_norm (index::group_norm_reshape, group_norm_axis, group_norm_args_reshape), view::mean, view::var, atleast_nd, moveaxis'}
+ASSUMPTIONS = ['the tree under test carries the fix commits of fixes/C17-conv-batch, C17-conv2d-dilation-pair, C17-pool-ceil-window, C17-max-pool-initial (the model mirrors the repaired code; the group interleaving of conv_reshape_weight and the unit-axis position of bilinear_input_reshape are mirrored as they are)',
                'shape_pool2d and the strided slice compute extents in float32 (ceil/floor of a float quotient): exact only while the quotient is representable (extents < 2^24); the model uses naturals',
                'k <= n for pooling (the C++ wraps in size_t otherwise; the reference rejects it)',
-               'floating-point tolerance (4 ulp x terms) is a harness statement, not a Lean statement',
+               'floating-point tolerance (4 ulp x terms) is a harness statement, not a Lean statement: the theorems about softmax, the norms, linear, pairwise_distance, cosine_similarity and avg pooling are over an abstract element type with opaque element operations and say which elements are combined in which order; the driver instantiates them at Float32 (IEEE single, libm expf/powf) for the correspondence run',
                'the conv theorems are stated over integer-valued arrays (Arr Int) for all inputs: an identity of term sets, not a statement about float rounding',
+               'the element type of intermediate results (e.g. double inside vector_norm through std::pow(float, int)) is not modelled',
                'PyTorch itself is not available: the reference is lib/nn_ref_c17.py written from the documented formulas']
-PARTIAL = ['softmax, softmin, batch/layer/instance/group norm, linear, bilinear, pairwise_distance, cosine_similarity: no Lean theorem (compositions of the C06-C08 pieces over opaque real operations); oracle comparison only',
-           'max/avg pooling: theorems cover output shape and the window element set handed to the reducer; the reduction itself (reduce_maximum / mean) is compared with the oracle only',
+PARTIAL = ['bilinear: the nested-loop definition is proved for rank-2 inputs (B, I) x (B, J) (bilinear_rank2_eq_def); for rank 1 and 3 (and rank 4 with middle leading extents of 1) the composition is modelled and compared with the real code and the oracle on every run but has no Lean theorem (missing: the matmulv2 term structure for the reshaped (B0, 1, B.., I) x (O, I, J) operands carried through multiply / sum / transpose); rank >= 4 in general is the known finding bilinear.lead-axes (bilinear_rank4_counterexample)',
+           'softmax / softmin / cosine_similarity are proved in the form the code computes (stabilised exponent, quotient summed term by term); equality with the textbook formula is proved under explicit algebraic laws of the element operations (softmax_eq_textbook, cosine_similarity_eq_textbook), which floating point satisfies only approximately',
+           'batch_norm: theorem for rank-4 inputs (where the code agrees with PyTorch); other ranks are the known finding batch_norm.rank-not-4 (batch_norm_rank2_counterexample)',
            'conv1d theorem covers None | int argument forms (one plane); conv2d theorem covers None | int | pair forms',
            'conv*_eq_nested_loop (PyTorch group assignment) hold on groups = 1 or O = groups (outside: conv1d_groups_counterexample, conv2d_groups_counterexample); conv*_eq_code_loop hold for every groups with the code\'s assignment o % g']
 MANIFEST = dict(
-    text='Proof: 12 Lean theorems. conv1d and conv2d: the mirrored view::convnd pipeline (reshape by groups, pad, sliding_window of input and of the dilation-expanded weight, multiply, sum, reshape, bias, strided slice) is defined, has the extent floor((n+2p-d(k-1)-1)/s)+1 per plane and each element is the nested loop over (channel, kernel) terms, for every batch, extent, kernel, stride, padding, dilation, groups and optional bias (None / int forms, and pairs for conv2d) with the code\'s group assignment o % g; equal to the PyTorch loop for groups = 1 or one output channel per group, with kernel-checked counterexamples outside. Pooling: shape_pool2d = PyTorch extents in floor and ceil mode (with the last-window rule), every window is non-empty, inside the input and equal to the clipped reference window, for any number of leading axes. Tied to the headers by a differential run of conv1d/conv2d/pool2d (model + nested-loop oracle) and of softmax/softmin/4 norms/linear/bilinear/pairwise_distance/cosine_similarity (oracle) on every check.',
-    note='Lean kernel + propext/Classical.choice/Quot.sound; model hand-written, fidelity rests on the correspondence run; softmax/norm/linear routines have no theorem (oracle comparison within 4 ulp x terms); four defects found by this check were repaired in /repo (fixes/C17-*.diff); two known findings remain (conv group interleaving for O/groups > 1, batch_norm on rank 2/3 inputs).',
-    technique='Lean 4 proofs over the mirrored convnd / pool2d index pipeline (Mathlib ring tactic in lemma files only) + differential correspondence + independent nested-loop NumPy oracle')
+    text='Proof: 31 Lean theorems. conv1d and conv2d: the mirrored view::convnd pipeline (reshape by groups, pad, sliding_window of input and of the dilation-expanded weight, multiply, sum, reshape, bias, strided slice) is defined, has the extent floor((n+2p-d(k-1)-1)/s)+1 per plane and each element is the nested loop over (channel, kernel) terms, for every batch, extent, kernel, stride, padding, dilation, groups and optional bias (None / int forms, and pairs for conv2d) with the code\'s group assignment o % g; equal to the PyTorch loop for groups = 1 or one output channel per group, with kernel-checked counterexamples outside. Pooling: shape_pool2d = PyTorch extents in floor and ceil mode (with the last-window rule), every window is non-empty, inside the input and equal to the clipped reference window, for any number of leading axes; max_pool2d = left fold of max over exactly that window from its first element (the greatest element over the integers), avg_pool2d = window sum / number of window elements, the divisor PyTorch uses without padding. Over an abstract element type with opaque operations, for all ranks, extents and axes: softmax / softmin (which elements enter the maximum and the normalising sum: the line through the index along the axis), linear (sum_i x[p,i] w[o,i] + b[o]), pairwise_distance, cosine_similarity, layer / instance / group norm (mean and variance over exactly the trailing block / spatial block / consecutive-channel group), batch_norm on rank 4 and bilinear on rank-2 inputs. Tied to the headers by a differential run of every routine (model + nested-loop oracle) on every check.',
+    note='Lean kernel + propext/Classical.choice/Quot.sound; model hand-written, fidelity rests on the correspondence run; theorems about softmax / norms / linear / distances are about term selection and fold order over abstract operations (float tolerance 4 ulp x terms is the harness\'s); four defects found by this check were repaired in /repo (fixes/C17-*.diff), one more fix is proposed (fixes/C17-bilinear-lead-axes.diff); three known findings remain (conv group interleaving for O/groups > 1, batch_norm on rank 2/3 inputs, bilinear on rank >= 4 inputs).',
+    technique='Lean 4 proofs over the mirrored convnd / pool2d index pipeline and over compositions of the C06-C08 / C16 models (Mathlib ring tactic in lemma files only) + differential correspondence (IMPL vs Lean MODEL at Float32 / Int vs independent nested-loop NumPy oracle)')
 
 H_C1, H_C2A, H_C2B, H_POOL, H_NORM, H_LIN = 'h_c17_conv1d', 'h_c17_conv2d_nb', 'h_c17_conv2d_b', 'h_c17_pool', 'h_c17_norm', 'h_c17_lin'
 
@@ -89,10 +104,17 @@ def parse_res(s):
         shp = a.split('=', 1)[1]
         dat = b.split('=', 1)[1]
         shape = [] if shp == '[]' else [int(t) for t in shp.split(',')]
-        data = [] if dat == '[]' else [float(t) for t in dat.split(',')]
+        data = [] if dat == '[]' else [fval(t) for t in dat.split(',')]
         return shape, data
     except Exception:
         return None
+
+
+def fval(t):
+    """one data token: decimal, or `b<bits>` = the IEEE-754 float32 bit pattern the Lean driver prints (exact)"""
+    if t.startswith('b'):
+        return struct.unpack('<f', struct.pack('<I', int(t[1:])))[0]
+    return float(t)
 
 
 EPS32 = 2.0 ** -23
@@ -151,9 +173,18 @@ def k_batch_norm_rank(c):
     return c.req.startswith('batch_norm ') and len(ints(argstr(c.req)['xs'])) != 4
 
 
+def k_bilinear_lead(c):
+    """bilinear on inputs of rank >= 4 whose leading axes 1 .. rank-3 are not all of extent 1"""
+    if not c.req.startswith('bilinear '):
+        return False
+    sh = ints(argstr(c.req)['as'])
+    return len(sh) >= 4 and any(e != 1 for e in sh[1:len(sh) - 2])
+
+
 KNOWN_PREDICATES = {
     'conv_groups_interleaved': k_conv_groups,
     'batch_norm_rank_not4': k_batch_norm_rank,
+    'bilinear_lead_axes': k_bilinear_lead,
 }
 
 
@@ -367,11 +398,11 @@ def gen_pool(tier, rng):
                                     x = rints(rng, n, -9, 9)
                                     xa = np.array(x).reshape(shape)
                                     mx = ref.pool2d(xa, [kh, kw], [sh, sw], bool(ceil), 'max')
-                                    c = Case('max_pool2d dt=%s xs=%s x=%s %s' % (dt, fmt(shape), fmt(x), com), H_POOL, oracle=fres(mx), model=False,
+                                    c = Case('max_pool2d dt=%s xs=%s x=%s %s' % (dt, fmt(shape), fmt(x), com), H_POOL, oracle=fres(mx),
                                              nontrivial=nt, tags=tags + ['max_pool2d', 'dt=' + dt])
                                     yield c
                                     av = ref.pool2d(xa, [kh, kw], [sh, sw], bool(ceil), 'avg')
-                                    c = Case('avg_pool2d dt=%s xs=%s x=%s %s' % (dt, fmt(shape), fmt(x), com), H_POOL, oracle=fres(av), model=False,
+                                    c = Case('avg_pool2d dt=%s xs=%s x=%s %s' % (dt, fmt(shape), fmt(x), com), H_POOL, oracle=fres(av),
                                              nontrivial=nt, tags=tags + ['avg_pool2d', 'dt=' + dt], cmp=close_cmp(kh * kw + 2, 9.0))
                                     yield c
 
@@ -390,7 +421,7 @@ def gen_softmax(tier, rng):
             for axis in range(-rank, rank):
                 for op, f in (('softmax', ref.softmax), ('softmin', ref.softmin)):
                     out = f(xa, axis)
-                    yield Case('%s xs=%s x=%s axis=%d' % (op, fmt(shape), fdata(x), axis), H_NORM, oracle=fres(out), model=False,
+                    yield Case('%s xs=%s x=%s axis=%d' % (op, fmt(shape), fdata(x), axis), H_NORM, oracle=fres(out),
                                nontrivial=shape[axis] > 1, tags=[op, 'rank=%d' % rank, 'axis<0' if axis < 0 else 'axis>=0'],
                                cmp=close_cmp(shape[axis] + 4, 1.0))
 
@@ -411,7 +442,7 @@ def gen_norms(tier, rng):
             m = reals8(rng, C, -8, 8); v = [abs(t) + 0.125 for t in reals8(rng, C, 0, 16)]; w = reals8(rng, C, -8, 8); b = reals8(rng, C, -8, 8)
             out = ref.batch_norm(xa, m, v, w, b)
             yield Case('batch_norm xs=%s x=%s ms=%d m=%s vs=%d v=%s ws=%d w=%s bs=%d b=%s' % (fmt(shape), fdata(x), C, fdata(m), C, fdata(v), C, fdata(w), C, fdata(b)),
-                       H_NORM, oracle=fres(out), model=False, tags=['batch_norm', 'rank=%d' % rank], dom=(rank == 4),
+                       H_NORM, oracle=fres(out), tags=['batch_norm', 'rank=%d' % rank], dom=(rank == 4),
                        cmp=close_cmp(8, (max(abs(t) for t in x) + 1) / math.sqrt(0.125) * 1 + 1))
             # layer_norm over the last k axes
             for k in range(1, rank + 1):
@@ -422,20 +453,20 @@ def gen_norms(tier, rng):
                 w = reals8(rng, wn, -8, 8); b = reals8(rng, wn, -8, 8)
                 out = ref.layer_norm(xa, np.array(w).reshape(wshape), np.array(b).reshape(wshape))
                 yield Case('layer_norm xs=%s x=%s ws=%s w=%s bs=%s b=%s' % (fmt(shape), fdata(x), fmt(wshape), fdata(w), fmt(wshape), fdata(b)),
-                           H_NORM, oracle=fres(out), model=False, tags=['layer_norm', 'rank=%d' % rank, 'k=%d' % k],
+                           H_NORM, oracle=fres(out), tags=['layer_norm', 'rank=%d' % rank, 'k=%d' % k],
                            cmp=close_cmp(wn + 8, norm_mag(x, w, b, 0)))
             w = reals8(rng, C, -8, 8); b = reals8(rng, C, -8, 8)
             # instance_norm: (N, C, *spatial) with nd = rank-2
             if rank >= 3:
                 out = ref.instance_norm(xa, w, b)
                 yield Case('instance_norm xs=%s x=%s ws=%d w=%s bs=%d b=%s nd=%d' % (fmt(shape), fdata(x), C, fdata(w), C, fdata(b), rank - 2),
-                           H_NORM, oracle=fres(out), model=False, tags=['instance_norm', 'rank=%d' % rank],
+                           H_NORM, oracle=fres(out), tags=['instance_norm', 'rank=%d' % rank],
                            cmp=close_cmp(prod(shape[2:]) + 8, norm_mag(x, w, b, 0)))
             # group_norm with every divisor of C
             for G in divisors(C):
                 out = ref.group_norm(xa, G, w, b)
                 yield Case('group_norm xs=%s x=%s ws=%d w=%s bs=%d b=%s groups=%d' % (fmt(shape), fdata(x), C, fdata(w), C, fdata(b), G),
-                           H_NORM, oracle=fres(out), model=False, tags=['group_norm', 'rank=%d' % rank, 'G=%d' % G],
+                           H_NORM, oracle=fres(out), tags=['group_norm', 'rank=%d' % rank, 'G=%d' % G],
                            cmp=close_cmp(prod(shape[1:]) // G + 8, norm_mag(x, w, b, 0)))
 
 
@@ -452,15 +483,25 @@ def gen_linear(tier, rng):
             for bias in (None, rints(rng, O, -9, 9)):
                 out = ref.linear(np.array(x, dtype=object).reshape(xs), np.array(w, dtype=object).reshape(O, I), bias)
                 yield Case('linear dt=%s xs=%s x=%s ws=%d,%d w=%s b=%s%s' % (dt, fmt(xs), fmt(x), O, I, fmt(w), 'None' if bias is None else fmt(bias), '' if bias is None else ' bs=%d' % O),
-                           H_LIN, oracle=fres(out), model=False, tags=['linear', 'rank=%d' % rank, 'bias' if bias else 'nobias', 'dt=' + dt])
-            # bilinear
-            as_, bs_ = lead + [I], lead + [J]
-            a = rints(rng, prod(as_), -3, 3); b = rints(rng, prod(bs_), -3, 3); w = rints(rng, O * I * J, -3, 3)
-            for bias in (None, rints(rng, O, -9, 9)):
-                out = ref.bilinear(np.array(a, dtype=object).reshape(as_), np.array(b, dtype=object).reshape(bs_), np.array(w, dtype=object).reshape(O, I, J), bias)
-                yield Case('bilinear dt=%s as=%s a=%s bs=%s b=%s ws=%d,%d,%d w=%s c=%s%s' % (dt, fmt(as_), fmt(a), fmt(bs_), fmt(b), O, I, J, fmt(w),
-                                                                                         'None' if bias is None else fmt(bias), '' if bias is None else ' cs=%d' % O),
-                           H_LIN, oracle=fres(out), model=False, tags=['bilinear', 'rank=%d' % rank, 'bias' if bias else 'nobias', 'dt=' + dt])
+                           H_LIN, oracle=fres(out), tags=['linear', 'rank=%d' % rank, 'bias' if bias else 'nobias', 'dt=' + dt])
+            # bilinear (rank 4: a second lead, with and without a middle extent of 1 — the class of bilinear.lead-axes)
+            leads_b = [lead]
+            if rank == 3 and rep % 2 == 0:
+                leads_b.append([lead[0], 1, lead[1]])
+                leads_b.append([lead[0], rng.randint(2, 3), lead[1]])
+            for lead_b in leads_b:
+                as_, bs_ = lead_b + [I], lead_b + [J]
+                a = rints(rng, prod(as_), -3, 3); b = rints(rng, prod(bs_), -3, 3); w = rints(rng, O * I * J, -3, 3)
+                for bias in (None, rints(rng, O, -9, 9)):
+                    out = ref.bilinear(np.array(a, dtype=object).reshape(as_), np.array(b, dtype=object).reshape(bs_), np.array(w, dtype=object).reshape(O, I, J), bias)
+                    c = Case('bilinear dt=%s as=%s a=%s bs=%s b=%s ws=%d,%d,%d w=%s c=%s%s' % (dt, fmt(as_), fmt(a), fmt(bs_), fmt(b), O, I, J, fmt(w),
+                                                                                           'None' if bias is None else fmt(bias), '' if bias is None else ' cs=%d' % O),
+                             H_LIN, oracle=fres(out), tags=['bilinear', 'rank=%d' % (len(lead_b) + 1), 'bias' if bias else 'nobias', 'dt=' + dt])
+                    if k_bilinear_lead(c):
+                        # known defect class: the oracle is the judge; the model mirrors the unrepaired code and would
+                        # disagree with a repaired tree, so it is not consulted here
+                        c.dom = False; c.model = False
+                    yield c
             # pairwise_distance / cosine_similarity
             D = rng.randint(1, 5)
             sa = lead + [D]
@@ -481,21 +522,21 @@ def gen_linear(tier, rng):
             mag = dmax + 1e-6
             if rep % 2 == 0:
                 out = ref.pairwise_distance(aa, ba)
-                yield Case('pairwise_distance as=%s a=%s bs=%s b=%s form=default' % (fmt(sa), fdata(a), fmt(sb), fdata(b)), H_LIN, oracle=fres(out), model=False,
+                yield Case('pairwise_distance as=%s a=%s bs=%s b=%s form=default' % (fmt(sa), fdata(a), fmt(sb), fdata(b)), H_LIN, oracle=fres(out),
                            tags=['pairwise_distance', 'rank=%d' % rank, 'default'] + (['equal-operands'] if rep % 5 == 3 else []), cmp=close_cmp(D + 6, mag * D))
             else:
                 ordv = rng.randint(1, 3); kd = rng.randint(0, 1)
                 out = ref.pairwise_distance(aa, ba, ordv, 1e-6, bool(kd))
                 yield Case('pairwise_distance as=%s a=%s bs=%s b=%s ord=%d eps=0.000001 keepdims=%d' % (fmt(sa), fdata(a), fmt(sb), fdata(b), ordv, kd), H_LIN,
-                           oracle=fres(out), model=False, tags=['pairwise_distance', 'rank=%d' % rank, 'ord=%d' % ordv, 'keepdims=%d' % kd] + (['equal-operands'] if rep % 5 == 3 else []),
+                           oracle=fres(out), tags=['pairwise_distance', 'rank=%d' % rank, 'ord=%d' % ordv, 'keepdims=%d' % kd] + (['equal-operands'] if rep % 5 == 3 else []),
                            cmp=close_cmp(D + 6, mag * D))
             if rank >= 2 and rep % 2 == 0:
                 out = ref.cosine_similarity(aa, ba)
-                yield Case('cosine_similarity as=%s a=%s bs=%s b=%s form=default' % (fmt(sa), fdata(a), fmt(sb), fdata(b)), H_LIN, oracle=fres(out), model=False,
+                yield Case('cosine_similarity as=%s a=%s bs=%s b=%s form=default' % (fmt(sa), fdata(a), fmt(sb), fdata(b)), H_LIN, oracle=fres(out),
                            tags=['cosine_similarity', 'rank=%d' % rank, 'default'], cmp=close_cmp(sa[1] + 8, 1.0))
             for axis in range(-rank, rank):
                 out = ref.cosine_similarity(aa, ba, axis)
-                yield Case('cosine_similarity as=%s a=%s bs=%s b=%s axis=%d' % (fmt(sa), fdata(a), fmt(sb), fdata(b), axis), H_LIN, oracle=fres(out), model=False,
+                yield Case('cosine_similarity as=%s a=%s bs=%s b=%s axis=%d' % (fmt(sa), fdata(a), fmt(sb), fdata(b), axis), H_LIN, oracle=fres(out),
                            tags=['cosine_similarity', 'rank=%d' % rank, 'axis=%d' % axis], cmp=close_cmp(sa[axis] + 8, 1.0))
 
 
@@ -524,6 +565,9 @@ def oracle_for(req):
             return 'ok ' + fmt(ref.pool_windows(ints(a['shape']), ints(a['kernel']), ints(a['stride']), a['ceil'] == '1')[0])
         if op in ('max_pool2d', 'avg_pool2d'):
             return fres(ref.pool2d(_arr(a, 'x'), ints(a['kernel']), ints(a['stride']), a['ceil'] == '1', op[:3]))
+        if op == 'bilinear':
+            cb = None if a['c'] == 'None' else [int(t) for t in a['c'].split(',')]
+            return fres(ref.bilinear(_arr(a, 'a', int), _arr(a, 'b', int), _arr(a, 'w', int), cb))
         if op == 'batch_norm':
             f = lambda k: [float(t) for t in a[k].split(',')]
             return fres(ref.batch_norm(_arr(a, 'x'), f('m'), f('v'), f('w'), f('b')))
@@ -536,7 +580,7 @@ def gen_witnesses(tier, rng):
     """the witness of every known finding is re-executed on every run"""
     import json
     path = os.path.join(os.path.dirname(os.path.dirname(os.path.dirname(os.path.abspath(__file__)))), 'known', 'C17.json')
-    hmap = {'conv1d': H_C1, 'pool_shape': H_POOL, 'max_pool2d': H_POOL, 'avg_pool2d': H_POOL, 'batch_norm': H_NORM}
+    hmap = {'conv1d': H_C1, 'pool_shape': H_POOL, 'max_pool2d': H_POOL, 'avg_pool2d': H_POOL, 'batch_norm': H_NORM, 'bilinear': H_LIN}
     for e in json.load(open(path)):
         req = e['witness']
         op = req.split(' ')[0]
